@@ -54,7 +54,7 @@ REQUIRED = dict(
               'stored-one-per-layer', 'stored-equals-exposed', 'hdf5-one-per-layer', 'aligned:temperature', 'aligned:abundance',
               'aligned:pressure', 'contract-fired']
     + ['contract:scale.' + k for k in _HYDRO] + ['contract:model.' + k for k in _HYDRO],
-    classes=['history:a-grid-computed-over-a-hundred-grids-ago-again', 'pressure:simple', 'pressure:array', 'pressure:file', 'nlayers:1', 'nlayers:2', 'nlayers:100', 'T:layers',
+    classes=['shared-planet:models-of-different-layer-counts', 'history:a-grid-computed-over-a-hundred-grids-ago-again', 'pressure:simple', 'pressure:array', 'pressure:file', 'nlayers:1', 'nlayers:2', 'nlayers:100', 'T:layers',
              'T:isothermal', 'T:npoint', 'T:guillot', 'units:km', 'atmosphere:extended-beyond-two-radii', 'planet-given-in:Rearth', 'planet-given-in:Mearth', 'planet-given-in:km', 'scale:irregular-levels', 'stored:hdf5', 'stored:recorded',
              'perturb:temperature', 'perturb:abundance', 'perturb:pressure', 'perturb:top-layer', 'perturb:bottom-layer',
              'via-setter', 'pressure:array-with-unordered-derived-levels', 'T-dtype:i', 'T-dtype:f',
@@ -504,11 +504,13 @@ def wl_shared(ctx, rng):
     for k in range(int(rng.integers(1, 3))):
         for _ in range(40):
             s2 = gen_spec(rng, pkinds=('simple',), nmin=2)
-            s2['n'] = spec['n']
+            other_n = bool(ctx.case['index'] % 2)       # every other case: the models sharing the planet differ in layer count
+            if not other_n:
+                s2['n'] = spec['n']
             s2['planet'] = spec['planet']
             if s2['tkind'] == 'layers':
-                s2['T'] = smooth_T(rng, spec['n'])
-            s2['heavy_x'] = (list(s2['heavy_x']) * spec['n'])[:spec['n']]
+                s2['T'] = smooth_T(rng, s2['n'])
+            s2['heavy_x'] = (list(s2['heavy_x']) * s2['n'])[:s2['n']]
             from taurex.exceptions import InvalidModelException
             try:
                 m2 = build(ctx, s2, planet=m.planet)
@@ -525,6 +527,10 @@ def wl_shared(ctx, rng):
         if rng.random() < 0.5:
             m2.model()
         models.append(m2)
+        if other_n and m2.nLayers != m.nLayers:
+            ctx.observe('shared-planet:models-of-different-layer-counts')
+            for mj in models[:-1]:
+                mj.initialize_profiles()            # the earlier (smaller or larger) model goes on after the newer one ran
         for j, mj in enumerate(models[:-1]):
             judge(mj)
             ctx.observe('shared-planet:earlier-model-rejudged')
